@@ -47,6 +47,23 @@ BNDivR(a, k, i, r) ==       \* processes limbs i..1 (high to low) with running r
        IN [q |-> rest.q \o <<t \div k>>, r |-> rest.r]
 BNDivSmall(a, k) == LET x == BNDivR(a, k, Len(a), 0) IN [q |-> BNTrim(x.q), r |-> x.r]
 BNIsZero(a) == a = <<>>
+\* a * b (schoolbook: one BNMulSmall per limb of b)
+RECURSIVE BNMulR(_, _, _)
+BNMulR(a, b, i) == IF i > Len(b) THEN <<>>
+                   ELSE BNAdd([j \in 1..(i - 1) |-> 0] \o BNMulSmall(a, b[i]), BNMulR(a, b, i + 1))
+BNMul(a, b) == IF a = <<>> \/ b = <<>> THEN <<>> ELSE BNTrim(BNMulR(a, b, 1))
+Pow2(k) == CASE k = 0 -> 1 [] k = 1 -> 2 [] k = 2 -> 4 [] k = 3 -> 8 [] k = 4 -> 16 [] k = 5 -> 32 [] k = 6 -> 64 [] k = 7 -> 128
+             [] k = 8 -> 256 [] k = 9 -> 512 [] k = 10 -> 1024 [] k = 11 -> 2048
+\* round-half-even(n / 2^e): the division is done in chunks of at most 11 bits; the quotient is rounded up when the
+\* remainder exceeds half, or equals half and the quotient is odd
+RECURSIVE BNShiftRound(_, _, _)
+BNShiftRound(n, e, lowNZ) ==
+  IF e = 0 THEN n
+  ELSE IF e > 11 THEN LET d == BNDivSmall(n, 2048) IN BNShiftRound(d.q, e - 11, lowNZ \/ d.r # 0)
+  ELSE LET d == BNDivSmall(n, Pow2(e))   half == Pow2(e - 1)
+           odd == d.q # <<>> /\ d.q[1] % 2 = 1
+           up == d.r > half \/ (d.r = half /\ (lowNZ \/ odd))
+       IN IF up THEN BNAdd(d.q, <<1>>) ELSE d.q
 \* 10^e as a small int (e <= 9)
 Pow10(e) == CASE e = 0 -> 1 [] e = 1 -> 10 [] e = 2 -> 100 [] e = 3 -> 1000 [] e = 4 -> 10000 [] e = 5 -> 100000
               [] e = 6 -> 1000000 [] e = 7 -> 10000000 [] e = 8 -> 100000000 [] e = 9 -> 1000000000
